@@ -356,7 +356,7 @@ int main(int argc, char **argv) {
         for (uint64_t i = start; i < count; i++) {
             if ((i & 15) == 0 && wall_now() - A.t0 > seconds) break;
             uint64_t idx = i * (uint64_t)nw + (uint64_t)g_w;
-            uint64_t s = sim::mix64(base, idx);
+            uint64_t s = sim::seed_mix(base, idx);
             g_cur_seed = s;
             g_cur_idx = i;
             if (g_status) { g_status[0] = s; g_status[1] = i; g_status[2] = 1; }
@@ -386,7 +386,7 @@ int main(int argc, char **argv) {
         // determinism self-test support: one line per seed with the event-log and choice-stream hashes
         g_mode = 3;
         for (uint64_t i = start; i < count; i++) {
-            uint64_t s = sim::mix64(base, i);
+            uint64_t s = sim::seed_mix(base, i);
             g_cur_seed = s; g_cur_idx = i;
             sim::Plan p;
             g_h->gen(s, tier, p);
